@@ -17,6 +17,9 @@ MaxN == atoi(IOEnv.VT_N)
 Variants == {<<"icmp", "">>, <<"udp", "">>, <<"tcp", "syn">>, <<"tcp", "sack">>, <<"tcp", "prefer_sack">>}
 RouterAddr(k) == "10." \o ToString(100 + k - 1) \o ".0.2"
 DestAddr(n) == "10." \o ToString(100 + n) \o ".0.2"
+\* the same links carry IPv6: fd00:<100+k>::1 / ::2
+RouterAddr6(k) == "fd00:" \o ToString(100 + k - 1) \o "::2"
+DestAddr6(n) == "fd00:" \o ToString(100 + n) \o "::2"
 
 Expected(v, n, port, silent, first) ==
     LET fails == v[2] = "sack" /\ port # "open"
@@ -30,9 +33,9 @@ Lab(v, n, port, silent, first, q, cli) ==
     [id |-> "C13/" \o v[1] \o v[2] \o "/n" \o ToString(n) \o "/" \o port \o "/s" \o ToJson(silent) \o "/f" \o ToString(first) \o "/q" \o ToString(q) \o (IF cli THEN "/cli" ELSE ""),
      label |-> v[1] \o v[2] \o "/n" \o ToString(n) \o "/" \o port \o (IF silent = {} THEN "" ELSE "/silent") \o (IF first > 1 THEN "/first" \o ToString(first) ELSE "")
                \o (IF q > 1 THEN "/concurrent" ELSE "") \o (IF cli THEN "/cli" ELSE ""),
-     kind |-> "lab", n |-> n, port |-> port, silent |-> SetToSeq(silent), cli |-> cli,
+     kind |-> "lab", n |-> n, port |-> port, silent |-> SetToSeq(silent), cli |-> cli, v6 |-> FALSE, skip |-> FALSE,
      req |-> [hostname |-> DestAddr(n), port |-> 443, protocol |-> v[1], tcp_method |-> v[2], min_ttl |-> first, max_ttl |-> n + 3,
-              timeout_ms |-> 500, queries |-> q, e2e |-> 1],
+              timeout_ms |-> 500, queries |-> q, e2e |-> 1, want_v6 |-> FALSE, skip_private |-> FALSE],
      expect |-> Expected(v, n, port, silent, first)]
 
 Ports(v) == IF v[1] = "tcp" THEN {"open", "closed", "nosack"} ELSE {"closed"}
@@ -44,7 +47,27 @@ All == UNION { UNION {
           \cup { Lab(v, n, CHOOSE p \in Ports(v) : p \in {"open", "closed"}, {}, 1, 3, FALSE) }
           \cup (IF v[2] \in {"", "syn"} THEN { Lab(v, n, CHOOSE p \in Ports(v) : p \in {"open", "closed"}, {}, 1, 1, TRUE) } ELSE {})
         : n \in (IF IOEnv.VT_TIER = "quick" THEN {1, MaxN} ELSE 1..MaxN) } : v \in Variants }
-ASSUME ndJsonSerialize(IOEnv.VT_OUT, SetToSeq(All)) /\ PrintT(<<"GEN", "C13", Cardinality(All), Cardinality(All)>>)
+\* IPv6 (ICMPv6 / UDPv6 over the raw IPV6_HDRINCL sink and the AF_PACKET source) and the CLI's --skip-private-hops flag
+\* (every lab address is in 10/8 or fd00::/8, so every hop is redacted)
+Lab6(proto, n, silent, cli) ==
+    [id |-> "C13/" \o proto \o "6/n" \o ToString(n) \o "/s" \o ToJson(silent) \o (IF cli THEN "/cli" ELSE ""),
+     label |-> proto \o "6/n" \o ToString(n) \o (IF silent = {} THEN "" ELSE "/silent") \o (IF cli THEN "/cli" ELSE ""),
+     kind |-> "lab", n |-> n, port |-> "closed", silent |-> SetToSeq(silent), cli |-> cli, v6 |-> TRUE, skip |-> FALSE,
+     req |-> [hostname |-> DestAddr6(n), port |-> 33434, protocol |-> proto, tcp_method |-> "", min_ttl |-> 1, max_ttl |-> n + 3,
+              timeout_ms |-> 500, queries |-> 1, e2e |-> 1, want_v6 |-> TRUE, skip_private |-> FALSE],
+     expect |-> [ok |-> TRUE, notsupported |-> FALSE,
+                 hops |-> [k \in 1..(n + 1) |-> IF k = n + 1 THEN [ttl |-> k, addr |-> DestAddr6(n), dest |-> TRUE]
+                                                ELSE [ttl |-> k, addr |-> IF k \in silent THEN "" ELSE RouterAddr6(k), dest |-> FALSE]]]]
+LabSkip(proto, n, cli) ==
+    [id |-> "C13/" \o proto \o "/n" \o ToString(n) \o "/skip_private" \o (IF cli THEN "/cli" ELSE ""),
+     label |-> proto \o "/n" \o ToString(n) \o "/skip_private" \o (IF cli THEN "/cli" ELSE ""),
+     kind |-> "lab", n |-> n, port |-> "closed", silent |-> <<>>, cli |-> cli, v6 |-> FALSE, skip |-> TRUE,
+     req |-> [hostname |-> DestAddr(n), port |-> 33434, protocol |-> proto, tcp_method |-> "", min_ttl |-> 1, max_ttl |-> n + 3,
+              timeout_ms |-> 500, queries |-> 1, e2e |-> 1, want_v6 |-> FALSE, skip_private |-> TRUE],
+     expect |-> [ok |-> TRUE, notsupported |-> FALSE, hops |-> [k \in 1..(n + 1) |-> [ttl |-> k, addr |-> "", dest |-> FALSE]]]]
+Extra == ({ Lab6(p, n, s, c) : p \in {"icmp", "udp"}, n \in {1, MaxN}, s \in {{}, {2}}, c \in BOOLEAN } \ { Lab6(p, 1, {2}, c) : p \in {"icmp", "udp"}, c \in BOOLEAN })
+         \cup { LabSkip(p, MaxN, c) : p \in {"icmp", "udp"}, c \in BOOLEAN }
+ASSUME ndJsonSerialize(IOEnv.VT_OUT, SetToSeq(All \cup Extra)) /\ PrintT(<<"GEN", "C13", Cardinality(All \cup Extra), Cardinality(All \cup Extra)>>)
 VARIABLE x
 Init == x = 0
 Next == UNCHANGED x
